@@ -19,6 +19,12 @@
 //     result of such a call becomes a further Record parameter (the oracle answering the call);
 //     the idiom  `if err := call(..); err != nil { return err }`  is an effect followed by the
 //     continuation (the callee's own failure is outside the decision that is modelled);
+//   * the results of such a call that have an integer / bool / byte-string / error type are ORACLE inputs: further parameters
+//     or<k>_<name> of the definition (k = number of the call site in source order, name = the variable they are bound to);
+//   * an atom of an object may not be read (nor a threaded atom returned) after the object itself was handed to an untranslated
+//     call (receiver or pointer argument) that may have changed it: such a function is rejected (forward data flow, flow.go-style);
+//   * in-place writes into a []byte parameter -  b[i] = v,  binary.BigEndian.PutUintNN(b[k:], v),  copy(b[k:], src)  - thread the
+//     slice (its final content is an additional result) with Go's bounds checks written out (out of range = panic);
 //   * a panic in a function without an error result makes the result an `option` (None = panic);
 //     a call of such a function may occur in `return e`, `x := e` under !, && and || (Go's
 //     short-circuit order is kept);
@@ -69,6 +75,10 @@ type absCtx struct {
 	block    bool
 	outer    []string // block mode: outer scalar variables assigned inside the block
 	lo, hi   token.Pos
+	oracles  map[*ast.AssignStmt][]string // results of untranslated calls: oracle parameter per left-hand side ("" = none)
+	oparams  []string                     // oracle parameters "(name : type)" in call-site order
+	slices   []string                     // []byte parameters written in place (threaded, returned)
+	scalars  map[string]bool              // names of the scalar parameters
 }
 
 func (a *absCtx) outVar(base, path string) (string, bool) {
@@ -94,6 +104,19 @@ func (tr *translator) tryCoqType(t types.Type) (s string, ok bool) {
 		return "", false
 	}
 	return tr.coqType(nil, t), true
+}
+
+// type of an expression that may be a freshly defined identifier (left-hand side of :=)
+func (tr *translator) lhsType(e ast.Expr) types.Type {
+	if id, ok := e.(*ast.Ident); ok {
+		if d := tr.pi.info.Defs[id]; d != nil {
+			return d.Type()
+		}
+		if u := tr.pi.info.Uses[id]; u != nil {
+			return u.Type()
+		}
+	}
+	return tr.typeOf(e)
 }
 
 func isNilIdent(e ast.Expr) bool {
@@ -327,6 +350,9 @@ func (tr *translator) containsOptCall(n ast.Node) bool {
 func (tr *translator) absTuple(vals []string) string {
 	a := tr.abs
 	all := append([]string{}, vals...)
+	for _, sl := range a.slices {
+		all = append(all, lv(sl))
+	}
 	for _, o := range a.outs {
 		all = append(all, lv(o.base+"_"+o.path))
 	}
@@ -367,8 +393,17 @@ func simpleBranch(n ast.Node) bool {
 		case *ast.ReturnStmt, *ast.BranchStmt, *ast.ForStmt, *ast.RangeStmt, *ast.FuncLit:
 			ok = false
 		case *ast.CallExpr:
-			if id, is := x.Fun.(*ast.Ident); is && id.Name == "panic" {
+			if id, is := x.Fun.(*ast.Ident); is && (id.Name == "panic" || id.Name == "copy") {
 				ok = false
+			}
+			if se, is := x.Fun.(*ast.SelectorExpr); is && strings.HasPrefix(se.Sel.Name, "PutUint") {
+				ok = false
+			}
+		case *ast.AssignStmt:
+			for _, l := range x.Lhs {
+				if _, is := l.(*ast.IndexExpr); is {
+					ok = false // in-place write: has a panic path
+				}
 			}
 		}
 		return ok
@@ -401,7 +436,11 @@ func (tr *translator) assignedIn(n ast.Node, from token.Pos) (vars []string, eff
 					seen[v] = true
 					vars = append(vars, v)
 				}
+				return
 			}
+			fail(e, "assignment target %s inside a branch", srcOf(e))
+		default:
+			fail(e, "assignment target %s inside a branch", srcOf(e))
 		}
 	}
 	ast.Inspect(n, func(x ast.Node) bool {
@@ -511,6 +550,9 @@ func (tr *translator) absStmt(list []ast.Stmt, k func() string) (string, bool) {
 			if id, ok := ce.Fun.(*ast.Ident); ok && id.Name == "panic" {
 				return "", false
 			}
+			if w, ok := tr.inPlaceCall(ce); ok {
+				return w(rest), true
+			}
 			if tr.isOpaqueCall(ce) {
 				return tr.effect(ce) + rest(), true
 			}
@@ -526,6 +568,26 @@ func (tr *translator) absStmt(list []ast.Stmt, k func() string) (string, bool) {
 			}
 		}
 	case *ast.AssignStmt:
+		if names, ok := a.oracles[s]; ok {
+			ce := s.Rhs[0].(*ast.CallExpr)
+			out := tr.effect(ce)
+			for i, l := range s.Lhs {
+				if names[i] == "" {
+					continue
+				}
+				out += "let " + tr.lhs(l) + " := " + names[i] + " in\n"
+			}
+			return out + rest(), true
+		}
+		if len(s.Lhs) == 1 && len(s.Rhs) == 1 && s.Tok == token.ASSIGN {
+			// b[i] = v on a threaded slice
+			if ie, ok := s.Lhs[0].(*ast.IndexExpr); ok {
+				if id, ok := ie.X.(*ast.Ident); ok && tr.isThreadedSlice(id.Name) {
+					b, i := lv(id.Name), tr.expr(ie.Index)
+					return "if (andb (0 <=? " + i + ") (" + i + " <? blen " + b + ")) then (\nlet " + b + " := (upd_at " + b + " " + i + " " + tr.expr(s.Rhs[0]) + ") in\n" + rest() + ")\nelse (\n" + tr.panicValue(s) + ")", true
+				}
+			}
+		}
 		if len(s.Lhs) == 1 && len(s.Rhs) == 1 {
 			// threaded atom
 			if b, p, ok := tr.absPath(s.Lhs[0]); ok && p != "" {
@@ -730,6 +792,68 @@ func (tr *translator) absDefinition(defName, srcName string, fd *ast.FuncDecl, b
 		}
 	}
 
+	// in-place writes: the written []byte parameters are threaded
+	a.scalars = map[string]bool{}
+	for _, sl := range slots {
+		if !sl.base {
+			a.scalars[sl.name] = true
+		}
+	}
+	for _, n := range tr.writtenSlices(body) {
+		if !a.scalars[n] {
+			fail(fd, "in-place write into %s which is not a []byte parameter", n)
+		}
+		a.slices = append(a.slices, n)
+		a.hasPanic = true
+	}
+	// results of untranslated calls: oracle parameters
+	a.oracles = map[*ast.AssignStmt][]string{}
+	site := 0
+	idiom := map[ast.Stmt]bool{}
+	ast.Inspect(body, func(x ast.Node) bool {
+		if is, ok := x.(*ast.IfStmt); ok {
+			if _, ok := tr.isErrPropagation(is); ok {
+				idiom[is.Init] = true
+			}
+		}
+		return true
+	})
+	ast.Inspect(body, func(x ast.Node) bool {
+		as, ok := x.(*ast.AssignStmt)
+		if !ok || idiom[as] || len(as.Rhs) != 1 || (as.Tok != token.DEFINE && as.Tok != token.ASSIGN) {
+			return true
+		}
+		ce, ok := as.Rhs[0].(*ast.CallExpr)
+		if !ok || !tr.isOpaqueCall(ce) {
+			return true
+		}
+		names := make([]string, len(as.Lhs))
+		any := false
+		for i, l := range as.Lhs {
+			id, isid := l.(*ast.Ident)
+			if !isid || id.Name == "_" {
+				continue
+			}
+			if _, isb := a.bases[id.Name]; isb {
+				continue
+			}
+			ty, ok := tr.tryCoqType(tr.lhsType(l))
+			if !ok {
+				continue
+			}
+			if !any {
+				site++
+				any = true
+			}
+			names[i] = fmt.Sprintf("or%d_%s", site, id.Name)
+			a.oparams = append(a.oparams, "("+names[i]+" : "+ty+")")
+		}
+		if any {
+			a.oracles[as] = names
+		}
+		return true
+	})
+
 	// threaded atoms (assigned fields), panics, effects
 	ast.Inspect(body, func(x ast.Node) bool {
 		reg := func(e ast.Expr) {
@@ -843,6 +967,9 @@ func (tr *translator) absDefinition(defName, srcName string, fd *ast.FuncDecl, b
 			a.outer = append(a.outer, v)
 		}
 	}
+	for range a.slices {
+		retTys = append(retTys, "list Z")
+	}
 	for _, o := range a.outs {
 		retTys = append(retTys, o.ty)
 		pre += "let " + lv(o.base+"_"+o.path) + " := (" + a.def + "_" + o.base + "_" + o.path + " " + lv(o.base) + ") in\n"
@@ -857,6 +984,10 @@ func (tr *translator) absDefinition(defName, srcName string, fd *ast.FuncDecl, b
 	}
 	if a.optPanic {
 		ret = "option (" + ret + ")"
+	}
+
+	if d, left := tr.flowStmts(body.List, dirtySet{}); !left {
+		tr.flowReturn(body, d)
 	}
 
 	bodyS := tr.stmts(body.List, func() string {
@@ -893,6 +1024,7 @@ func (tr *translator) absDefinition(defName, srcName string, fd *ast.FuncDecl, b
 		sb.WriteString("Record " + rec + " := { " + strings.Join(fs, "; ") + " }.\n")
 		params = append(params, "("+lv(s.name)+" : "+rec+")")
 	}
+	params = append(params, a.oparams...)
 	sb.WriteString(tr.pending)
 	tr.pending = ""
 	pos := fset.Position(fd.Pos())
@@ -951,4 +1083,312 @@ func (tr *translator) constant(name string) (string, error) {
 		return fmt.Sprintf("(* %s:%d *) Definition %s : bool := %v.\n", pos.Filename, pos.Line, name, constant.BoolVal(v)), nil
 	}
 	return "", fmt.Errorf("constant %s is not an integer", name)
+}
+
+// ---------------------------------------------------------------- in-place writes into []byte parameters
+
+const absSlicePrelude = `(* in-place writes into a byte slice (the bounds checks are written out at the call sites) *)
+Definition upd_at (b : list Z) (i v : Z) : list Z := firstn (Z.to_nat i) b ++ v :: skipn (Z.to_nat i + 1) b.
+Definition put_be_at (b : list Z) (k n v : Z) : list Z := firstn (Z.to_nat k) b ++ be_put n v ++ skipn (Z.to_nat (k + n)) b.
+Definition copy_at (b : list Z) (k : Z) (src : list Z) : list Z :=
+  let room := Z.to_nat (blen b - k) in
+  firstn (Z.to_nat k) b ++ firstn room src ++ skipn (Z.to_nat k + Nat.min room (length src)) b.
+
+`
+
+func (tr *translator) isThreadedSlice(name string) bool {
+	for _, s := range tr.abs.slices {
+		if s == name {
+			return true
+		}
+	}
+	return false
+}
+
+// destination of an in-place write:  b  or  b[k:]  with b a threaded slice
+func (tr *translator) writeDst(e ast.Expr) (b string, off string, ok bool) {
+	switch e := e.(type) {
+	case *ast.Ident:
+		if tr.isThreadedSlice(e.Name) {
+			return lv(e.Name), "0", true
+		}
+	case *ast.SliceExpr:
+		if id, isid := e.X.(*ast.Ident); isid && tr.isThreadedSlice(id.Name) && e.High == nil && !e.Slice3 && e.Low != nil {
+			return lv(id.Name), tr.expr(e.Low), true
+		}
+	}
+	return "", "", false
+}
+
+func writeDstName(e ast.Expr) string {
+	switch e := e.(type) {
+	case *ast.Ident:
+		return e.Name
+	case *ast.SliceExpr:
+		if id, ok := e.X.(*ast.Ident); ok {
+			return id.Name
+		}
+	}
+	return ""
+}
+
+// binary.BigEndian.PutUintNN(dst, v) / copy(dst, src) with dst inside a threaded slice
+func (tr *translator) inPlaceCall(ce *ast.CallExpr) (func(rest func() string) string, bool) {
+	switch f := ce.Fun.(type) {
+	case *ast.Ident:
+		if _, isb := tr.pi.info.Uses[f].(*types.Builtin); isb && f.Name == "copy" && len(ce.Args) == 2 {
+			if b, off, ok := tr.writeDst(ce.Args[0]); ok {
+				src := tr.expr(ce.Args[1])
+				return func(rest func() string) string {
+					return "if (andb (0 <=? " + off + ") (" + off + " <=? blen " + b + ")) then (\nlet " + b + " := (copy_at " + b + " " + off + " " + src + ") in\n" + rest() + ")\nelse (\n" + tr.panicValue(ce) + ")"
+				}, true
+			}
+		}
+	case *ast.SelectorExpr:
+		if obj, isf := tr.pi.info.Uses[f.Sel].(*types.Func); isf && obj.Pkg() != nil && obj.Pkg().Path() == "encoding/binary" {
+			n := map[string]string{"PutUint16": "2", "PutUint32": "4", "PutUint64": "8"}[obj.Name()]
+			inner, isSel := f.X.(*ast.SelectorExpr)
+			if n != "" && isSel && inner.Sel.Name == "BigEndian" && len(ce.Args) == 2 {
+				if b, off, ok := tr.writeDst(ce.Args[0]); ok {
+					v := tr.expr(ce.Args[1])
+					return func(rest func() string) string {
+						return "if (andb (0 <=? " + off + ") (" + off + " + " + n + " <=? blen " + b + ")) then (\nlet " + b + " := (put_be_at " + b + " " + off + " " + n + " " + v + ") in\n" + rest() + ")\nelse (\n" + tr.panicValue(ce) + ")"
+					}, true
+				}
+			}
+		}
+	}
+	return nil, false
+}
+
+// slices written in place by the body (names of []byte variables)
+func (tr *translator) writtenSlices(body ast.Node) []string {
+	seen := map[string]bool{}
+	var out []string
+	add := func(n string) {
+		if n != "" && !seen[n] {
+			seen[n] = true
+			out = append(out, n)
+		}
+	}
+	ast.Inspect(body, func(x ast.Node) bool {
+		switch x := x.(type) {
+		case *ast.AssignStmt:
+			for _, l := range x.Lhs {
+				if ie, ok := l.(*ast.IndexExpr); ok {
+					if id, ok := ie.X.(*ast.Ident); ok && isBytesLike(tr.typeOf(ie.X)) {
+						add(id.Name)
+					}
+				}
+			}
+		case *ast.CallExpr:
+			switch f := x.Fun.(type) {
+			case *ast.Ident:
+				if _, isb := tr.pi.info.Uses[f].(*types.Builtin); isb && f.Name == "copy" && len(x.Args) == 2 {
+					add(writeDstName(x.Args[0]))
+				}
+			case *ast.SelectorExpr:
+				if obj, isf := tr.pi.info.Uses[f.Sel].(*types.Func); isf && obj.Pkg() != nil && obj.Pkg().Path() == "encoding/binary" &&
+					strings.HasPrefix(obj.Name(), "PutUint") && len(x.Args) == 2 {
+					add(writeDstName(x.Args[0]))
+				}
+			}
+		}
+		return true
+	})
+	return out
+}
+
+// ---------------------------------------------------------------- data flow: no atom read after the object escaped
+
+// bases handed to the untranslated call ce: receiver root, or an argument that is the object itself (or is not a plain scalar)
+func (tr *translator) escapes(ce *ast.CallExpr) []string {
+	a := tr.abs
+	seen := map[string]bool{}
+	var out []string
+	add := func(n string) {
+		if _, isb := a.bases[n]; isb && !seen[n] {
+			seen[n] = true
+			out = append(out, n)
+		}
+	}
+	if se, ok := ce.Fun.(*ast.SelectorExpr); ok {
+		if b, _, ok := tr.absPath(se.X); ok {
+			add(b)
+		}
+	}
+	for _, arg := range ce.Args {
+		if _, ok := tr.tryCoqType(tr.typeOf(arg)); ok {
+			if _, isInt, _ := intInfo(tr.typeOf(arg)); isInt > 0 || isBool(tr.typeOf(arg)) {
+				continue // a scalar passed by value
+			}
+		}
+		ast.Inspect(arg, func(x ast.Node) bool {
+			if id, ok := x.(*ast.Ident); ok {
+				add(id.Name)
+			}
+			return true
+		})
+	}
+	return out
+}
+
+type dirtySet map[string]bool
+
+func (d dirtySet) copy() dirtySet {
+	n := dirtySet{}
+	for k, v := range d {
+		n[k] = v
+	}
+	return n
+}
+
+// flowExpr: atoms read in e must belong to clean objects; afterwards the objects handed to untranslated calls in e are dirty
+func (tr *translator) flowExpr(e ast.Node, d dirtySet) {
+	if e == nil {
+		return
+	}
+	var calls []*ast.CallExpr
+	var visit func(n ast.Node)
+	visit = func(n ast.Node) {
+		ast.Inspect(n, func(x ast.Node) bool {
+			switch x := x.(type) {
+			case *ast.FuncLit:
+				return false
+			case *ast.CallExpr:
+				if tr.isOpaqueCall(x) {
+					calls = append(calls, x)
+					for _, a := range x.Args { // the method selector itself is not a read
+						visit(a)
+					}
+					return false
+				}
+				if b, p, ok := tr.absPath(x); ok && p != "" {
+					if d[b] {
+						fail(x, "%s is read after %s was handed to an untranslated call that may have changed it", srcOf(x), b)
+					}
+					return false
+				}
+			case *ast.SelectorExpr:
+				if b, p, ok := tr.absPath(x); ok && p != "" {
+					if d[b] {
+						fail(x, "%s is read after %s was handed to an untranslated call that may have changed it", srcOf(x), b)
+					}
+					return false
+				}
+			}
+			return true
+		})
+	}
+	visit(e)
+	for _, c := range calls {
+		for _, b := range tr.escapes(c) {
+			d[b] = true
+		}
+	}
+}
+
+func (tr *translator) flowReturn(n ast.Node, d dirtySet) {
+	for _, o := range tr.abs.outs {
+		if d[o.base] {
+			fail(n, "the threaded field %s.%s is returned after %s was handed to an untranslated call that may have changed it", o.base, o.path, o.base)
+		}
+	}
+}
+
+// flowStmts returns the dirty set at the end and whether the list always leaves (return / panic / continue / break)
+func (tr *translator) flowStmts(list []ast.Stmt, d dirtySet) (dirtySet, bool) {
+	for _, st := range list {
+		switch s := st.(type) {
+		case *ast.ReturnStmt:
+			for _, r := range s.Results {
+				tr.flowExpr(r, d)
+			}
+			tr.flowReturn(s, d)
+			return d, true
+		case *ast.BranchStmt:
+			tr.flowReturn(s, d)
+			return d, true
+		case *ast.BlockStmt:
+			var t bool
+			d, t = tr.flowStmts(s.List, d)
+			if t {
+				return d, true
+			}
+		case *ast.IfStmt:
+			if s.Init != nil {
+				d, _ = tr.flowStmts([]ast.Stmt{s.Init}, d)
+			}
+			tr.flowExpr(s.Cond, d)
+			d1, t1 := tr.flowStmts(s.Body.List, d.copy())
+			d2, t2 := d.copy(), false
+			if s.Else != nil {
+				d2, t2 = tr.flowStmts([]ast.Stmt{s.Else}, d.copy())
+			}
+			if t1 && t2 {
+				return d, true
+			}
+			nd := dirtySet{}
+			if !t1 {
+				for k := range d1 {
+					nd[k] = true
+				}
+			}
+			if !t2 {
+				for k := range d2 {
+					nd[k] = true
+				}
+			}
+			d = nd
+		case *ast.SwitchStmt:
+			if s.Init != nil {
+				d, _ = tr.flowStmts([]ast.Stmt{s.Init}, d)
+			}
+			tr.flowExpr(s.Tag, d)
+			nd := dirtySet{}
+			all, hasDef := true, false
+			for _, c := range s.Body.List {
+				cc := c.(*ast.CaseClause)
+				if cc.List == nil {
+					hasDef = true
+				}
+				for _, l := range cc.List {
+					tr.flowExpr(l, d)
+				}
+				dc, tc := tr.flowStmts(cc.Body, d.copy())
+				if !tc {
+					all = false
+					for k := range dc {
+						nd[k] = true
+					}
+				}
+			}
+			if !hasDef {
+				all = false
+				for k := range d {
+					nd[k] = true
+				}
+			}
+			if all {
+				return d, true
+			}
+			d = nd
+		case *ast.ForStmt:
+			// loop bodies are pure in the accepted subset; treat conservatively: two passes
+			tr.flowExpr(s.Init, d)
+			tr.flowExpr(s.Cond, d)
+			d, _ = tr.flowStmts(s.Body.List, d)
+			d, _ = tr.flowStmts(s.Body.List, d)
+		case *ast.ExprStmt:
+			if ce, ok := s.X.(*ast.CallExpr); ok {
+				if id, ok := ce.Fun.(*ast.Ident); ok && id.Name == "panic" {
+					return d, true
+				}
+			}
+			tr.flowExpr(s, d)
+		default:
+			tr.flowExpr(st, d)
+		}
+	}
+	return d, false
 }
